@@ -12,6 +12,14 @@ ALL = ['C%02d' % i for i in range(1, 19)]
 
 # theorems (fully qualified Lean names) that decide each property on the model
 THEOREMS = {p: [] for p in ALL + ['TIE']}
+THEOREMS['C01'] = ['FB.replay_sound', 'FB.replay_simple_sound', 'FB.faithful_of_hash', 'FB.C01_subbuild_hit_transparent',
+                   'FB.View.sim_answer', 'FB.run_keeps_claimed']
+THEOREMS['C05'] = ['FB.replay_sound', 'FB.C13_read_replay']
+THEOREMS['C06'] = ['FB.C06_changed_invalidates', 'FB.C06_changed_invalidatesL', 'FB.C06_lookup_tests_version',
+                   'FB.C06_equal_versions_pass']
+THEOREMS['C08'] = ['FB.C08_dup_file_rejected', 'FB.C08_dup_file_no_effect', 'FB.C08_dup_sub_no_effect',
+                   'FB.C08_reuse_checks_and_claims', 'FB.C08_rejected_never_served_file', 'FB.C08_rejected_never_served_sub']
+THEOREMS['C13'] = ['FB.C13_hash_iff', 'FB.C13_metadata_iff', 'FB.C13_read_replay', 'FB.C13_output_replay']
 THEOREMS['C04'] = ['FB.C04_exists_iff', 'FB.C04_not_both', 'FB.C04_listDir_iff', 'FB.C04_listDir_errors',
                    'FB.C04_hidden', 'FB.C04_visible_elsewhere']
 THEOREMS['C10'] = ['FB.C10_success', 'FB.C10_failure', 'FB.C10_setup']
